@@ -2,6 +2,7 @@
 from prop_common import *
 import pyref, corr_parse, gen_scripts, factory_scenarios
 from sievelib.parser import Parser
+from sievelib.factory import FiltersSet
 
 RULE = ("sequences of 2–6 scripts (valid generated, single-edit invalid, truncated mid-construct, differing requires) through ONE reused "
         "Parser with fresh Parsers and FiltersSet scenarios interleaved; systematically, every token prefix of scripts using each stateful "
@@ -33,6 +34,11 @@ def pristine_one(t):
     if t not in _PRISTINE:
         _PRISTINE[t] = pristine_parse([t])[0]
     return _PRISTINE[t]
+
+
+REFUSED_ACTIONS = [("redirect", ":create", "a@b.c"), ("fileinto", ":copyy", "F"), ("reject", ":mime", "no"), ("vacation", ":nosuch", "away"), ("keep", ":x"),
+                   ("setflag", ":copy", "f"), ("addflag", ":flags", "a", "b"), ("discard", ":copy"), ("stop", ":create"), ("redirect",), ("fileinto", ":flags"),
+                   ("removeflag", ":create", "x"), ("vacation", ":days"), ("header", "x")]
 
 
 def script_pool(ctx, n):
@@ -90,11 +96,27 @@ def run(ctx):
             if a != model[t]:
                 d = {"suite": "hist", "history_hex": [h.hex() for h in hist], "input_hex": t.hex(), "input": t.decode("latin-1"), "impl": a[:300], "model": model[t][:300]}
                 diffs.append(d)
+                # what this script gives with nothing before it: a fresh Parser here — or, should the whole process be affected
+                # (class-level tables), a pristine interpreter
                 alone = pyref.parse_answer(t, parser=Parser())
+                if alone == a and len(_PRISTINE) < 40:
+                    alone = pristine_one(t)
                 if alone != a:
                     viol.append({"history_hex": [h.hex() for h in hist], "history": [h.decode("latin-1") for h in hist], "input_hex": t.hex(),
                                  "input": t.decode("latin-1"), "what": "outcome depends on history: after history %s, alone %s" % (a[:120], alone[:120])})
             hist.append(t)
+            if r.random() < 0.1:
+                # FiltersSet calls the factory REFUSES (an action given a tag it does not have, a test as action, a missing
+                # argument): each raises, and none of them may leave anything behind — in the set or in the process
+                refused = 0
+                for bad_acts in REFUSED_ACTIONS:
+                    try:
+                        FiltersSet("refused").addfilter("r", [("Subject", ":is", "x")], [bad_acts], "anyof")
+                    except Exception as e_:  # noqa
+                        refused += type(e_).__module__.startswith("sievelib")
+                if not refused:
+                    raise RuntimeError("none of the calls meant to be refused was refused by the library: the harness is broken")
+                hist.append(b"# (refused FiltersSet calls: %d)" % len(REFUSED_ACTIONS))
             if r.random() < 0.15:
                 order = list(range(len(base_factory)))
                 r.shuffle(order)
@@ -236,7 +258,6 @@ def run(ctx):
                     else:
                         diffs.append({"suite": "hist", "history_hex": [first.hex()], "input_hex": u.hex(), "input": u.decode("latin-1"), "impl": a[:300], "model": probe_model[u][:300]})
     # loading a parsed script into a FiltersSet must use THAT script, whatever was parsed (by another object) in between
-    from sievelib.factory import FiltersSet
     A = b'require ["fileinto", "copy"];\n# Filter: one\nif anyof (header :is "Subject" "x") {\n    fileinto :copy "F";\n}\n'
     for B in [b"keep;", b'require ["envelope"]; if envelope :is "from" "a" { stop; }', b"if true {", b'require "imap4flags"; addflag "x";', b""]:
         pa, pb = Parser(), Parser()
